@@ -1,11 +1,13 @@
 //! Correspondence harness of property C07 (hash gadgets equal their reference functions).
 use mzkh::Ctx;
 
+mod bytes;
 mod circuits;
 mod poseidon;
 
 fn main() {
     let mut ctx = Ctx::from_args("C07");
     poseidon::run(&mut ctx);
+    bytes::run(&mut ctx);
     ctx.finish();
 }
